@@ -885,6 +885,7 @@ impl<'b> InnerBucket<'b> {
                             Ok(i) => i,
                             _ => panic!("child branch not found"),
                         };
+                        let mut merged_right = None;
                         if node.data.len() > 0 && branches.len() > 1 {
                             // add that child's data to a sibling node
                             let sibling_page = if index == 0 {
@@ -902,6 +903,15 @@ impl<'b> InnerBucket<'b> {
                             let mut sibling = sibling.borrow_mut();
                             // Copy this node's data over to it's sibling
                             sibling.data.merge(&mut node.data);
+                            if index == 0 {
+                                // The right sibling now starts with this node's keys, which sort
+                                // before the key the parent knows it by. Let it take over this
+                                // node's entry in the parent, otherwise a search for one of the
+                                // moved keys descends into the wrong child (a nested bucket updated
+                                // in this transaction was then inserted a second time).
+                                sibling.original_key = node.original_key.clone();
+                                merged_right = Some(sibling_page);
+                            }
                             if !node.children.is_empty() {
                                 // Move all children nodes over to that sibling too
                                 for child in node.children.iter() {
@@ -917,7 +927,12 @@ impl<'b> InnerBucket<'b> {
                         node.deleted = true;
                         if let NodeData::Branches(branches) = &mut parent.data {
                             // remove the child from this node
-                            branches.remove(index);
+                            if let Some(sibling_page) = merged_right {
+                                branches[index].page = sibling_page;
+                                branches.remove(index + 1);
+                            } else {
+                                branches.remove(index);
+                            }
                         }
                         if let Some(i) = parent.children.iter().position(|x| *x == node.id) {
                             parent.children.remove(i);
